@@ -232,6 +232,16 @@ func (s *Sim) Deliver(b *MBlock) {
 		// node does not know the block; it can be delivered again later
 		delete(s.delivered, b)
 	}
+	// the same for orphans waiting below b that this call resolved and
+	// refused because an ancestor is (operator-)invalidated right now
+	for _, o := range s.w.Blocks {
+		if o != b && s.delivered[o] && b.IsAncestorOf(o) && s.excluded(o) && !s.have(o) {
+			delete(s.delivered, o)
+			delete(s.doubt, o)
+			s.pending = append(s.pending, o)
+			r.Probe("orphan-below-invalidated-branch-refused")
+		}
+	}
 	for i, p := range s.pending {
 		if p == b && (s.delivered[b] || !tooNew) {
 			s.pending = append(s.pending[:i:i], s.pending[i+1:]...)
